@@ -445,4 +445,446 @@ Section Rounded.
     intros H. apply (horner_rounded_E_gen 0 _ _ _ (rnd (x - xm))) in H; [|apply E_exact].
     apply (E_mono _ (2 * length c)) in H; [exact (proj1 H)|lia].
   Qed.
+
+  (* ---------------------------------------------------------------- *)
+  (** ** Integer constants: static_cast<T>(n) is exact for |n| <= M *)
+
+  Variable M : Z.
+  Hypothesis rnd_int : forall z : Z, (Z.abs z <= M)%Z -> rnd (IZR z) = IZR z.
+
+  Lemma f0_rnd : f0 (Ops := RndOps rnd) = 0.
+  Proof. reflexivity. Qed.
+  Lemma f1_rnd : f1 (Ops := RndOps rnd) = 1.
+  Proof. reflexivity. Qed.
+  Lemma fopp_rnd a : fopp (Ops := RndOps rnd) a = - a.
+  Proof. reflexivity. Qed.
+
+  Lemma fof_pos_exact p : (Zpos p <= M)%Z -> fof_pos (K := RndOps rnd) p = IZR (Zpos p).
+  Proof.
+    induction p as [q IH|q IH|]; intros Hp; cbn [fof_pos];
+      rewrite ?fadd_rnd, ?fmul_rnd, ?f1_rnd.
+    - rewrite IH by lia.
+      replace (1 + 1) with (IZR 2) by lra. rewrite (rnd_int 2) by lia.
+      rewrite <- mult_IZR. rewrite rnd_int by lia.
+      replace (1 + IZR (2 * Z.pos q)) with (IZR (1 + 2 * Z.pos q))
+        by (rewrite plus_IZR; reflexivity).
+      rewrite rnd_int by lia. f_equal; lia.
+    - rewrite IH by lia.
+      replace (1 + 1) with (IZR 2) by lra. rewrite (rnd_int 2) by lia.
+      rewrite <- mult_IZR. rewrite rnd_int by lia. f_equal; lia.
+    - reflexivity.
+  Qed.
+
+  Lemma fofZ_exact z : (Z.abs z <= M)%Z -> fofZ (K := RndOps rnd) z = IZR z.
+  Proof.
+    destruct z as [|p|p]; intros Hz; cbn [fofZ].
+    - reflexivity.
+    - apply fof_pos_exact. lia.
+    - rewrite fopp_rnd, fof_pos_exact by lia. rewrite <- opp_IZR. reflexivity.
+  Qed.
+
+  Lemma fofnat_exact n : (Z.of_nat n <= M)%Z -> fofnat (K := RndOps rnd) n = INR n.
+  Proof.
+    intros Hn. unfold fofnat. rewrite fofZ_exact by lia.
+    rewrite <- INR_IZR_INZ. reflexivity.
+  Qed.
+
+  (* ---------------------------------------------------------------- *)
+  (** ** Lists of judgements *)
+
+  Inductive EL (k : nat) : list R -> list R -> list R -> Prop :=
+  | EL_nil : EL k [] [] []
+  | EL_cons v e S vs es Ss :
+      E k v e S -> EL k vs es Ss -> EL k (v :: vs) (e :: es) (S :: Ss).
+
+  Lemma EL_exact cs : EL 0 cs cs (map Rabs cs).
+  Proof.
+    induction cs as [|c cs IH]; cbn [map]; constructor; [apply E_exact|exact IH].
+  Qed.
+
+  Lemma EL_mono j k vs es Ss : (j <= k)%nat -> EL j vs es Ss -> EL k vs es Ss.
+  Proof.
+    intros Hjk H. induction H as [|v e S vs es Ss Hv _ IH]; constructor;
+      [apply (E_mono j); assumption|exact IH].
+  Qed.
+
+  Lemma EL_length k vs es Ss : EL k vs es Ss -> length vs = length es /\ length vs = length Ss.
+  Proof.
+    intros H. induction H as [|v e S vs es Ss _ _ [IH1 IH2]]; cbn [length]; split; congruence.
+  Qed.
+
+  Lemma evens_cons (a : R) r : evens (a :: r) = a :: evens (tl r).
+  Proof. destruct r; reflexivity. Qed.
+
+  Lemma EL_evens k vs es Ss : EL k vs es Ss -> EL k (evens vs) (evens es) (evens Ss).
+  Proof.
+    intros H.
+    assert (P : EL k (evens vs) (evens es) (evens Ss)
+                /\ EL k (evens (tl vs)) (evens (tl es)) (evens (tl Ss))).
+    { induction H as [|v e S vs es Ss Hv _ [IH1 IH2]].
+      - split; constructor.
+      - rewrite !evens_cons. cbn [tl]. split; [constructor; assumption|exact IH1]. }
+    exact (proj1 P).
+  Qed.
+
+  Lemma length_evens (l : list R) : (2 * length (evens l) <= length l + 1)%nat.
+  Proof.
+    assert (P : (2 * length (evens l) <= length l + 1
+                 /\ 2 * length (evens (tl l)) <= length l)%nat).
+    { induction l as [|a l [IH1 IH2]].
+      - cbn. lia.
+      - rewrite evens_cons. cbn [tl length]. lia. }
+    exact (proj1 P).
+  Qed.
+
+  (* ---------------------------------------------------------------- *)
+  (** ** even_horner: sum_m cs[m] / (2(i+m)+1) * h2^m *)
+
+  Lemma even_horner_rnd_nil i h2 : even_horner (K := RndOps rnd) i [] h2 = 0.
+  Proof. reflexivity. Qed.
+  Lemma even_horner_rnd_cons i c r h2 :
+    even_horner (K := RndOps rnd) i (c :: r) h2
+    = rnd (rnd (c / fofnat (K := RndOps rnd) (2 * i + 1))
+           + rnd (h2 * even_horner (K := RndOps rnd) (S i) r h2)).
+  Proof. reflexivity. Qed.
+  Lemma even_horner_exact_nil i h2 : even_horner (K := ExactOps) i [] h2 = 0.
+  Proof. reflexivity. Qed.
+  Lemma even_horner_exact_cons i c r h2 :
+    even_horner (K := ExactOps) i (c :: r) h2
+    = c / INR (2 * i + 1) + h2 * even_horner (K := ExactOps) (S i) r h2.
+  Proof. rewrite <- fofnat_exact_id. reflexivity. Qed.
+
+  (* general form: coefficients carrying [kc] rounding factors, abscissa
+     carrying [j] *)
+  Lemma even_horner_E kc j h2r h2e H2 :
+    E j h2r h2e H2 ->
+    forall cs ce cS, EL kc cs ce cS ->
+    forall i, (Z.of_nat (2 * (i + length cs)) <= M)%Z ->
+    E (kc + (j + 2) * length cs)
+      (even_horner (K := RndOps rnd) i cs h2r)
+      (even_horner (K := ExactOps) i ce h2e)
+      (even_horner (K := ExactOps) i cS H2).
+  Proof.
+    intros Hh cs ce cS H.
+    induction H as [|v e Sv vs es Ss Hv _ IH]; intros i Hi.
+    - rewrite even_horner_rnd_nil, !even_horner_exact_nil.
+      apply (E_mono 0); [lia|]. apply E_exact_le. rewrite Rabs_R0. lra.
+    - cbn [length] in Hi.
+      rewrite even_horner_rnd_cons, !even_horner_exact_cons.
+      rewrite fofnat_exact by lia.
+      assert (Hpos : 0 < INR (2 * i + 1)) by (apply lt_0_INR; lia).
+      specialize (IH (S i)). 
+      assert (Hi' : (Z.of_nat (2 * (S i + length vs)) <= M)%Z) by lia.
+      specialize (IH Hi').
+      eapply E_eq.
+      + apply E_rnd, E_add.
+        * apply E_rnd, E_div_const; [exact Hpos|exact Hv].
+        * apply E_rnd, E_mul; [exact Hh|exact IH].
+      + cbn [length]. rewrite Nat.mul_succ_r. lia.
+      + reflexivity.
+      + reflexivity.
+  Qed.
+
+  Definition eh_abs (i : nat) (cs : list R) (h2 : R) : R :=
+    even_horner (K := ExactOps) i (map Rabs cs) (Rabs h2).
+
+  Theorem even_horner_rounded_bound i cs h2 :
+    (Z.of_nat (2 * (i + length cs)) <= M)%Z ->
+    Rabs (even_horner (K := RndOps rnd) i cs h2 - even_horner (K := ExactOps) i cs h2)
+      <= gamma (2 * length cs) * eh_abs i cs h2.
+  Proof.
+    intros Hi.
+    pose proof (even_horner_E 0 0 h2 h2 (Rabs h2) (E_exact h2) cs cs (map Rabs cs)
+                  (EL_exact cs) i Hi) as H.
+    exact (proj1 H).
+  Qed.
+
+  (* ---------------------------------------------------------------- *)
+  (** ** LinearForm::evaluateInterval *)
+
+  Lemma f2_exact_id : f2 (K := ExactOps) = 2.
+  Proof. unfold f2. rewrite fofZ_exact_id. reflexivity. Qed.
+
+  Lemma f2_exact : (2 <= M)%Z -> f2 (K := RndOps rnd) = 2.
+  Proof. intros H. unfold f2. rewrite fofZ_exact by lia. reflexivity. Qed.
+
+  (* the final 2 * h * (...) of both kernels *)
+  Lemma kernel_tail_E k h ehr ehe ehS :
+    (2 <= M)%Z -> E k ehr ehe ehS ->
+    E (k + 2) (rnd (rnd (2 * h) * ehr)) (2 * h * ehe) (2 * Rabs h * ehS).
+  Proof.
+    intros HM H.
+    assert (H2 : E 1 (rnd (2 * h)) (2 * h) (2 * Rabs h)).
+    { apply (E_rnd 0). eapply E_eq; [apply E_mul; [apply (E_exact 2)|apply (E_exact h)]
+                                    |reflexivity|reflexivity|].
+      rewrite (Rabs_pos_eq 2) by lra. reflexivity. }
+    eapply E_eq; [apply E_rnd, E_mul; [exact H2|exact H]|lia|reflexivity|reflexivity].
+  Qed.
+
+  Lemma lin_kernel_rounded_E a h v :
+    (Z.of_nat (length a) + 1 <= M)%Z ->
+    lin_kernel (K := RndOps rnd) a h = Ok v ->
+    E (3 * length (evens a) + 2) v (defint (K := ExactOps) a h)
+      (2 * Rabs h * eh_abs 0 (evens a) (h * h)).
+  Proof.
+    intros HM Hv. destruct a as [|a0 a]; [discriminate|].
+    set (a' := a0 :: a) in *.
+    assert (Hl : (1 <= length a')%nat) by (unfold a'; cbn [length]; lia).
+    pose proof (length_evens a') as Hle.
+    rewrite (defint_even_horner (L := ExactLaws)).
+    unfold lin_kernel in Hv. unfold a' at 1 in Hv. injection Hv as <-.
+    rewrite !fmul_rnd. rewrite f2_exact by lia.
+    change (@fmul R ExactOps) with Rmult. rewrite f2_exact_id.
+    assert (Hh2 : E 1 (rnd (h * h)) (h * h) (Rabs (h * h))).
+    { apply (E_rnd 0), E_exact. }
+    assert (Hi : (Z.of_nat (2 * (0 + length (evens a'))) <= M)%Z) by lia.
+    pose proof (even_horner_E 0 1 _ _ _ Hh2 _ _ _ (EL_exact (evens a')) 0%nat Hi) as He.
+    pose proof (kernel_tail_E _ h _ _ _ ltac:(lia) He) as Ht.
+    eapply E_eq; [exact Ht| |reflexivity|].
+    - cbn [Nat.add]. lia.
+    - unfold eh_abs. reflexivity.
+  Qed.
+
+  Theorem lin_kernel_rounded_bound_tight a h v :
+    (Z.of_nat (length a) + 1 <= M)%Z ->
+    lin_kernel (K := RndOps rnd) a h = Ok v ->
+    Rabs (v - defint (K := ExactOps) a h)
+      <= gamma (3 * length (evens a) + 2) * (2 * Rabs h * eh_abs 0 (evens a) (h * h)).
+  Proof. intros HM Hv. exact (proj1 (lin_kernel_rounded_E a h v HM Hv)). Qed.
+
+  Theorem lin_kernel_rounded_bound a h v :
+    (Z.of_nat (length a) + 1 <= M)%Z ->
+    lin_kernel (K := RndOps rnd) a h = Ok v ->
+    Rabs (v - defint (K := ExactOps) a h)
+      <= gamma (2 * length a + 3) * (2 * Rabs h * eh_abs 0 (evens a) (h * h)).
+  Proof.
+    intros HM Hv. pose proof (lin_kernel_rounded_E a h v HM Hv) as H.
+    assert (Hl : (1 <= length a)%nat).
+    { destruct a; [discriminate|cbn [length]; lia]. }
+    pose proof (length_evens a) as Hle.
+    apply (E_mono _ (2 * length a + 3)) in H; [exact (proj1 H)|lia].
+  Qed.
+
+  (* ---------------------------------------------------------------- *)
+  (** ** BilinearForm::evaluateInterval: the product coefficients are
+         themselves computed with rounding *)
+
+  Lemma pscale_l_rnd a q : pscale_l (K := RndOps rnd) a q = map (fun b => rnd (a * b)) q.
+  Proof. reflexivity. Qed.
+  Lemma pscale_l_exact a q : pscale_l (K := ExactOps) a q = map (fun b => a * b) q.
+  Proof. reflexivity. Qed.
+
+  Lemma EL_pscale_l ka kb a ae aS q qe qS :
+    E ka a ae aS -> EL kb q qe qS ->
+    EL (ka + kb + 1) (pscale_l (K := RndOps rnd) a q)
+       (pscale_l (K := ExactOps) ae qe) (pscale_l (K := ExactOps) aS qS).
+  Proof.
+    intros Ha H. rewrite pscale_l_rnd, !pscale_l_exact.
+    induction H as [|v e Sv vs es Ss Hv _ IH]; cbn [map]; constructor; [|exact IH].
+    apply E_rnd, E_mul; assumption.
+  Qed.
+
+  Lemma EL_padd j k p pe pS : EL j p pe pS -> forall q qe qS, EL k q qe qS ->
+    EL (Nat.max j k + 1) (padd (K := RndOps rnd) p q)
+       (padd (K := ExactOps) pe qe) (padd (K := ExactOps) pS qS).
+  Proof.
+    intros Hp. induction Hp as [|v e Sv vs es Ss Hv Hvs IH]; intros q qe qS Hq.
+    - cbn [padd]. apply (EL_mono k); [lia|exact Hq].
+    - destruct Hq as [|w f Sw ws fs Ts Hw Hws].
+      + cbn [padd]. apply (EL_mono j); [lia|]. constructor; assumption.
+      + cbn [padd]. constructor; [|apply IH; exact Hws].
+        rewrite fadd_rnd. apply E_rnd.
+        change (@fadd R ExactOps) with Rplus. apply E_add; assumption.
+  Qed.
+
+  Lemma EL_pmul p q :
+    EL (length p) (pmul (K := RndOps rnd) p q) (pmul (K := ExactOps) p q)
+       (pmul (K := ExactOps) (map Rabs p) (map Rabs q)).
+  Proof.
+    induction p as [|a p IH].
+    - cbn [pmul map length]. constructor.
+    - destruct p as [|b p].
+      + cbn [pmul map length].
+        apply (EL_pscale_l 0 0); [apply E_exact|apply EL_exact].
+      + cbn [map] in *. rewrite !pmul_cons2.
+        rewrite f0_rnd. change (@f0 R ExactOps) with 0.
+        eapply EL_mono; [|apply EL_padd].
+        2:{ apply (EL_pscale_l 0 0); [apply E_exact|apply EL_exact]. }
+        2:{ constructor; [|exact IH]. apply (E_mono 0); [lia|].
+            apply E_exact_le. rewrite Rabs_R0. lra. }
+        cbn [length]. lia.
+  Qed.
+
+  Lemma length_pmul_rnd a b :
+    length (pmul (K := RndOps rnd) a b) = length (pmul (K := ExactOps) a b).
+  Proof. exact (proj1 (EL_length _ _ _ _ (EL_pmul a b))). Qed.
+
+  (* magnitude: 2 |h| sum_{m} (sum_{i+j=2m} |a_i||b_j|) / (2m+1) |h|^(2m) *)
+  Definition bi_abs (a b : list R) (h : R) : R :=
+    2 * Rabs h * even_horner (K := ExactOps) 0
+                   (evens (pmul (K := ExactOps) (map Rabs a) (map Rabs b))) (Rabs (h * h)).
+
+  Lemma bi_kernel_rounded_E a b h v :
+    (Z.of_nat (length a + length b) <= M)%Z ->
+    bi_kernel (K := RndOps rnd) a b h = Ok v ->
+    E (length a + 3 * length (evens (pmul (K := ExactOps) a b)) + 2)
+      v (defint (K := ExactOps) (pmul (K := ExactOps) a b) h) (bi_abs a b h).
+  Proof.
+    intros HM Hv. destruct a as [|a0 a]; [discriminate|]. destruct b as [|b0 b]; [discriminate|].
+    set (a' := a0 :: a) in *. set (b' := b0 :: b) in *.
+    assert (Hla : (1 <= length a')%nat) by (unfold a'; cbn [length]; lia).
+    assert (Hlb : (1 <= length b')%nat) by (unfold b'; cbn [length]; lia).
+    assert (Hlen : length (pmul (K := ExactOps) a' b') = (length a' + length b' - 1)%nat).
+    { apply length_pmul; unfold a', b'; discriminate. }
+    pose proof (length_evens (pmul (K := ExactOps) a' b')) as Hle.
+    rewrite (defint_even_horner (L := ExactLaws)).
+    unfold bi_kernel in Hv. unfold a' at 1, b' at 1 in Hv. injection Hv as <-.
+    rewrite !fmul_rnd. rewrite f2_exact by lia.
+    change (@fmul R ExactOps) with Rmult. rewrite f2_exact_id.
+    assert (Hh2 : E 1 (rnd (h * h)) (h * h) (Rabs (h * h))).
+    { apply (E_rnd 0), E_exact. }
+    pose proof (EL_evens _ _ _ _ (EL_pmul a' b')) as Hev.
+    destruct (EL_length _ _ _ _ Hev) as [Hl1 _].
+    assert (Hi : (Z.of_nat (2 * (0 + length (evens (pmul (K := RndOps rnd) a' b')))) <= M)%Z).
+    { rewrite Hl1. lia. }
+    pose proof (even_horner_E _ 1 _ _ _ Hh2 _ _ _ Hev 0%nat Hi) as He.
+    pose proof (kernel_tail_E _ h _ _ _ ltac:(lia) He) as Ht.
+    eapply E_eq; [exact Ht| |reflexivity|reflexivity].
+    rewrite Hl1. cbn [Nat.add]. lia.
+  Qed.
+
+  Theorem bi_kernel_rounded_bound_tight a b h v :
+    (Z.of_nat (length a + length b) <= M)%Z ->
+    bi_kernel (K := RndOps rnd) a b h = Ok v ->
+    Rabs (v - defint (K := ExactOps) (pmul (K := ExactOps) a b) h)
+      <= gamma (length a + 3 * length (evens (pmul (K := ExactOps) a b)) + 2) * bi_abs a b h.
+  Proof. intros HM Hv. exact (proj1 (bi_kernel_rounded_E a b h v HM Hv)). Qed.
+
+  Theorem bi_kernel_rounded_bound a b h v :
+    (Z.of_nat (length a + length b) <= M)%Z ->
+    bi_kernel (K := RndOps rnd) a b h = Ok v ->
+    Rabs (v - defint (K := ExactOps) (pmul (K := ExactOps) a b) h)
+      <= gamma (3 * length a + 2 * length b + 2) * bi_abs a b h.
+  Proof.
+    intros HM Hv. pose proof (bi_kernel_rounded_E a b h v HM Hv) as H.
+    destruct a as [|a0 a]; [discriminate|]. destruct b as [|b0 b]; [discriminate|].
+    set (a' := a0 :: a) in *. set (b' := b0 :: b) in *.
+    assert (Hla : (1 <= length a')%nat) by (unfold a'; cbn [length]; lia).
+    assert (Hlb : (1 <= length b')%nat) by (unfold b'; cbn [length]; lia).
+    assert (Hlen : length (pmul (K := ExactOps) a' b') = (length a' + length b' - 1)%nat).
+    { apply length_pmul; unfold a', b'; discriminate. }
+    pose proof (length_evens (pmul (K := ExactOps) a' b')) as Hle.
+    apply (E_mono _ (3 * length a' + 2 * length b' + 2)) in H; [exact (proj1 H)|lia].
+  Qed.
 End Rounded.
+
+(* ------------------------------------------------------------------ *)
+(** * Why the exponent for [horner_rounded_bound] is 3 n and not 2 n
+
+    Measured against the polynomial at the exact abscissa x - xm, the rounding
+    of dx = x - xm is amplified once per power of dx, so the top coefficient of
+    a polynomial with n coefficients carries 3 (n - 1) rounding factors.  In
+    the abstract standard model the bound gamma (2 n) is false already for
+    n = 4 (rnd x = x (1 + u), c = [0;0;0;1], x = 1, xm = 0: v = (1+u)^9). *)
+
+Lemma horner_2n_bound_fails u : 0 < u ->
+  exists rnd, (forall x, exists d, Rabs d <= u /\ rnd x = x * (1 + d)) /\
+  exists x c xm v, eval_interval (K := RndOps rnd) x c xm = Ok v /\
+    ~ Rabs (v - peval (K := ExactOps) c (x - xm)) <= gamma u (2 * length c) * pabs c (x - xm).
+Proof.
+  intros Hu. exists (fun x => x * (1 + u)). split.
+  { intros x. exists u. split; [rewrite Rabs_pos_eq; lra|reflexivity]. }
+  exists 1, [0; 0; 0; 1], 0. eexists. split; [reflexivity|].
+  cbv [rev app fold_left pabs peval map length Nat.mul Nat.add].
+  change (@fadd R ExactOps) with Rplus. change (@fmul R ExactOps) with Rmult.
+  change (@f0 R ExactOps) with 0.
+  rewrite !fadd_rnd, !fmul_rnd, !fsub_rnd.
+  replace (1 - 0) with 1 by ring. rewrite Rabs_R0, Rabs_R1.
+  match goal with |- ~ Rabs (?a - ?b) <= _ => replace (a - b) with ((1 + u) ^ 9 - 1) by ring end.
+  unfold gamma.
+  assert (H8 : 1 <= (1 + u) ^ 8) by (apply pow_R1_Rle; lra).
+  assert (H9 : (1 + u) ^ 9 = (1 + u) * (1 + u) ^ 8) by ring.
+  rewrite Rabs_pos_eq by nra. nra.
+Qed.
+
+(* ------------------------------------------------------------------ *)
+(** * The hypotheses are satisfied by IEEE round-to-nearest-even
+
+    binary64 without underflow/overflow: 53 bits of precision, unbounded
+    exponent range (Flocq's FLX format). *)
+
+From Flocq Require Import Core Relative.
+
+Definition rnd64 : R -> R := round radix2 (FLX_exp 53) ZnearestE.
+Definition u64 : R := bpow radix2 (-53).
+Definition M64 : Z := (2 ^ 53 - 1)%Z.
+
+Lemma u64_pos : 0 <= u64.
+Proof. apply bpow_ge_0. Qed.
+
+Lemma prec53_gt_0 : Prec_gt_0 53.
+Proof. reflexivity. Qed.
+
+Lemma flx_rnd_spec : forall x, exists d, Rabs d <= u64 /\ rnd64 x = x * (1 + d).
+Proof.
+  intros x.
+  destruct (@relative_error_N_FLX_ex radix2 53 prec53_gt_0 (fun z => negb (Z.even z)) x)
+    as [d [Hd Hr]].
+  exists d. split; [|exact Hr].
+  eapply Rle_trans; [exact Hd|]. unfold u64.
+  change (- (53) + 1)%Z with (-52)%Z.
+  change (-53)%Z with (-1 + -52)%Z.
+  rewrite bpow_plus. change (bpow radix2 (-1)) with (/ 2). lra.
+Qed.
+
+Lemma flx_rnd_int : forall z : Z, (Z.abs z <= M64)%Z -> rnd64 (IZR z) = IZR z.
+Proof.
+  intros z Hz. unfold rnd64. apply round_generic; [typeclasses eauto|].
+  apply generic_format_FLX. apply (FLX_spec radix2 53 (IZR z) (Float radix2 z 0)).
+  - unfold F2R. simpl. ring.
+  - simpl Fnum. unfold M64 in Hz. change (Zpower radix2 53) with (2 ^ 53)%Z. lia.
+Qed.
+
+(* the main theorems instantiated at binary64 rounding *)
+Corollary horner_rounded_bound_binary64 x c xm v :
+  eval_interval (K := RndOps rnd64) x c xm = Ok v ->
+  Rabs (v - peval (K := ExactOps) c (x - xm))
+    <= gamma u64 (3 * length c) * pabs c (x - xm).
+Proof. exact (horner_rounded_bound u64 u64_pos rnd64 flx_rnd_spec x c xm v). Qed.
+
+Corollary horner_rounded_bound_binary64_eps x c xm v :
+  INR (3 * length c) * u64 <= 1 / 2 ->
+  eval_interval (K := RndOps rnd64) x c xm = Ok v ->
+  Rabs (v - peval (K := ExactOps) c (x - xm))
+    <= 2 * INR (3 * length c) * u64 * pabs c (x - xm).
+Proof.
+  intros Hn Hv. eapply Rle_trans; [apply horner_rounded_bound_binary64, Hv|].
+  apply Rmult_le_compat_r; [apply pabs_nonneg|].
+  apply gamma_small; [exact u64_pos|exact Hn].
+Qed.
+
+Corollary even_horner_rounded_bound_binary64 i cs h2 :
+  (Z.of_nat (2 * (i + length cs)) <= M64)%Z ->
+  Rabs (even_horner (K := RndOps rnd64) i cs h2 - even_horner (K := ExactOps) i cs h2)
+    <= gamma u64 (2 * length cs) * eh_abs i cs h2.
+Proof.
+  exact (even_horner_rounded_bound u64 u64_pos rnd64 flx_rnd_spec M64 flx_rnd_int i cs h2).
+Qed.
+
+Corollary lin_kernel_rounded_bound_binary64 a h v :
+  (Z.of_nat (length a) + 1 <= M64)%Z ->
+  lin_kernel (K := RndOps rnd64) a h = Ok v ->
+  Rabs (v - defint (K := ExactOps) a h)
+    <= gamma u64 (2 * length a + 3) * (2 * Rabs h * eh_abs 0 (evens a) (h * h)).
+Proof.
+  exact (lin_kernel_rounded_bound u64 u64_pos rnd64 flx_rnd_spec M64 flx_rnd_int a h v).
+Qed.
+
+Corollary bi_kernel_rounded_bound_binary64 a b h v :
+  (Z.of_nat (length a + length b) <= M64)%Z ->
+  bi_kernel (K := RndOps rnd64) a b h = Ok v ->
+  Rabs (v - defint (K := ExactOps) (pmul (K := ExactOps) a b) h)
+    <= gamma u64 (3 * length a + 2 * length b + 2) * bi_abs a b h.
+Proof.
+  exact (bi_kernel_rounded_bound u64 u64_pos rnd64 flx_rnd_spec M64 flx_rnd_int a b h v).
+Qed.
